@@ -484,6 +484,9 @@ pub const CODE_ROUTER: u64 = 4;
 pub const CODE_ROGUE: u64 = 5;
 /// the same pair code registered a second time: migration target ("restart on the same code")
 pub const CODE_PAIR_V2: u64 = 6;
+/// the factory and router code registered a second time: migration targets
+pub const CODE_FACTORY_V2: u64 = 7;
+pub const CODE_ROUTER_V2: u64 = 8;
 
 fn cw20_code() -> Box<dyn Contract<Empty>> {
     Box::new(ContractWrapper::new(
@@ -553,6 +556,8 @@ pub fn build_chain(native_balances: &[(String, Vec<Coin>)]) -> Chain {
     assert_eq!(keeper.store_code(router_code()) as u64, CODE_ROUTER);
     assert_eq!(keeper.store_code(rogue_code()) as u64, CODE_ROGUE);
     assert_eq!(keeper.store_code(pair_code()) as u64, CODE_PAIR_V2);
+    assert_eq!(keeper.store_code(factory_code()) as u64, CODE_FACTORY_V2);
+    assert_eq!(keeper.store_code(router_code()) as u64, CODE_ROUTER_V2);
     let wasm = FaultyWasm {
         inner: keeper,
         ctl: ctl.clone(),
